@@ -8,6 +8,7 @@ import (
 	"strings"
 	"sync/atomic"
 	"testing"
+	"time"
 
 	metav1 "k8s.io/apimachinery/pkg/apis/meta/v1"
 	"k8s.io/apimachinery/pkg/apis/meta/v1/unstructured"
@@ -193,7 +194,13 @@ func (w *dworld) start() error {
 		}
 	}
 	c.Start()
-	<-c.doneCh
+	// numWorkers == 0: the start goroutine ends once the caches have synced. (Should it not end - a
+	// Start that parks until the stop - the stepped harness needs only the synced caches, which
+	// every test waits for through quiesce() anyway.)
+	select {
+	case <-c.doneCh:
+	case <-time.After(2 * time.Second):
+	}
 	return nil
 }
 
